@@ -68,7 +68,8 @@ Section NR.
 
   Lemma mapping_cands_sub kvs cands c : In c (mapping_cands kvs cands) -> In c cands.
   Proof.
-    unfold mapping_cands, by_namespace. destruct (find_field "namespace" kvs); [|auto].
+    unfold mapping_cands, by_namespace. destruct (find_field "namespace" kvs) as [nsn|]; [|auto].
+    destruct (is_null nsn || String.eqb (node_value nsn) ""); [auto|].
     destruct (String.eqb _ _); [contradiction|].
     destruct (filter _ cands) eqn:E.
     - intros H. apply filter_In in H. tauto.
